@@ -217,7 +217,9 @@ Qed.
 
 (* a location is that of a prefix of the input *)
 Definition span_ok (all : list byte) (c : ctx) : Prop :=
-  exists i k1 k2, ic c = Some i /\ (k1 <= k2 <= length all)%nat /                  ic_start i = loc_after 1 1 (firstn k1 all) /                  ic_end i = loc_after 1 1 (firstn k2 all).
+  exists i k1 k2, ic c = Some i /\ (k1 <= k2 <= length all)%nat /\
+                  ic_start i = loc_after 1 1 (firstn k1 all) /\
+                  ic_end i = loc_after 1 1 (firstn k2 all).
 
 Lemma read_ctxs_spans all : forall fuel oo r fname idx infile, loc_ok all r ->
   Forall (span_ok all) (fst (fst (read_ctxs fuel oo r fname idx infile))).
@@ -241,7 +243,8 @@ Proof.
 Qed.
 
 Lemma idx_nth fname : forall cs idx infile i c, idx_ok fname idx infile cs -> nth_error cs i = Some c ->
-  exists ici, ic c = Some ici /\ ic_index ici = idx + N.of_nat i /              ic_file_index ici = infile + N.of_nat i /\ ic_file ici = fname.
+  exists ici, ic c = Some ici /\ ic_index ici = idx + N.of_nat i /\
+              ic_file_index ici = infile + N.of_nat i /\ ic_file ici = fname.
 Proof.
   induction cs as [|c0 t IH]; intros idx infile i c H Hn; [destruct i; discriminate|].
   cbn [idx_ok] in H. destruct H as (i0 & Hic & Hi & Hf & Hn0 & Ht).
@@ -266,7 +269,8 @@ Qed.
 (* the i-th context is number idx + i of the run and infile + i of its input *)
 Theorem ctx_indices fuel r fname idx infile cs e b i c :
   read_ctxs fuel false r fname idx infile = (cs, e, b) -> nth_error cs i = Some c ->
-  exists ici, ic c = Some ici /\ ic_index ici = idx + N.of_nat i /              ic_file_index ici = infile + N.of_nat i /\ ic_file ici = fname.
+  exists ici, ic c = Some ici /\ ic_index ici = idx + N.of_nat i /\
+              ic_file_index ici = infile + N.of_nat i /\ ic_file ici = fname.
 Proof.
   intros H. pose proof (read_ctxs_idx fuel r fname idx infile) as Hi. rewrite H in Hi.
   apply idx_nth. exact Hi.
@@ -295,10 +299,199 @@ Qed.
    number of newlines in that prefix *)
 Theorem ctx_locations (all : list byte) fuel oo fname idx infile c :
   In c (fst (fst (read_ctxs fuel oo (mk_reader (map EB all)) fname idx infile))) ->
-  exists i k1 k2, ic c = Some i /\ (k1 <= k2 <= length all)%nat /    ic_start i = loc_after 1 1 (firstn k1 all) /    ic_end i = loc_after 1 1 (firstn k2 all) /    fst (ic_end i) = 1 + N.of_nat (count_occ N.eq_dec (firstn k2 all) 10).
+  exists i k1 k2, ic c = Some i /\ (k1 <= k2 <= length all)%nat /\
+    ic_start i = loc_after 1 1 (firstn k1 all) /\
+    ic_end i = loc_after 1 1 (firstn k2 all) /\
+    fst (ic_end i) = 1 + N.of_nat (count_occ N.eq_dec (firstn k2 all) 10).
 Proof.
   intros Hin.
   pose proof (read_ctxs_spans all fuel oo (mk_reader (map EB all)) fname idx infile (loc_ok_init all)) as H.
   rewrite Forall_forall in H. destruct (H c Hin) as (i & k1 & k2 & Hi & Hk & Hs & He).
   exists i, k1, k2. repeat split; auto; try lia. rewrite He. apply line_counts_newlines.
 Qed.
+
+(* ================= (I1) a read error is not the end of input ================= *)
+(* the error event is still ahead, or it has been met and the io flag is set; at end of input
+   nothing is pending *)
+Definition err_ahead (r : reader) : Prop :=
+  (eof r = true -> rest r = []) /\ (In EErr (rest r) \/ io r = true).
+
+Lemma err_ahead_step r : err_ahead r -> err_ahead (step r).
+Proof.
+  unfold err_ahead, step, next. intros (He & Hi). destruct (eof r) eqn:E; cbn [snd]; [rewrite E; auto|].
+  destruct (rest r) as [|[b|] t]; cbn [snd eof rest io].
+  - split; [reflexivity|]. destruct Hi as [[]|Hi]; auto.
+  - split; [discriminate|]. destruct Hi as [[C|Hi]|Hi]; [discriminate|auto|auto].
+  - split; auto.
+Qed.
+
+Lemma err_ahead_advances r r' : advances r r' -> err_ahead r -> err_ahead r'.
+Proof. apply (advances_inv err_ahead). apply err_ahead_step. Qed.
+
+Lemma err_ahead_init pre rst : err_ahead (mk_reader (map EB pre ++ EErr :: rst)).
+Proof.
+  unfold err_ahead, mk_reader. cbn [eof rest io]. split; [discriminate|]. left.
+  apply in_or_app. right. left. reflexivity.
+Qed.
+
+Theorem reached_err_ahead pre rst r : advances (mk_reader (map EB pre ++ EErr :: rst)) r ->
+  In EErr (rest r) \/ io r = true.
+Proof. intros H. apply (err_ahead_advances _ _ H (err_ahead_init pre rst)). Qed.
+
+(* `next` answers None only at the true end of input or when it sets the io flag *)
+Lemma next_none r : err_ahead r -> fst (next r) = None -> io (snd (next r)) = true.
+Proof.
+  unfold err_ahead, next. intros (He & Hi). destruct (eof r) eqn:E; cbn [fst snd].
+  - intros _. destruct Hi as [Hi|Hi]; [|exact Hi]. rewrite (He eq_refl) in Hi. destruct Hi.
+  - destruct (rest r) as [|[b|] t]; cbn [fst snd io]; try discriminate; auto.
+    intros _. destruct Hi as [[]|Hi]; exact Hi.
+Qed.
+
+(* PEof is answered only at end of input *)
+Lemma peek_none_eof r :
+  match fst (peek r) with None => eof (snd (peek r)) = true | Some _ => True end.
+Proof.
+  unfold peek, next. destruct (cur r); cbn [fst]; [exact I|].
+  destruct (eof r) eqn:E; cbn [fst snd]; [exact E|].
+  destruct (rest r) as [|[b|] t]; cbn [fst snd eof]; auto.
+Qed.
+
+Definition eofok (x : pres * reader) : Prop := fst x = PEof -> eof (snd x) = true.
+
+Lemma read_string_f_noeof fuel : forall acc r, fst (read_string_f fuel acc r) <> PEof.
+Proof.
+  induction fuel as [|f IH]; intros acc r; cbn [read_string_f]; [discriminate|].
+  repeat first [apply IH | lazymatch goal with |- ?t <> PEof => let x := hs t in destruct x; fr_norm end];
+    discriminate.
+Qed.
+
+Lemma read_string_noeof r : fst (read_string r) <> PEof.
+Proof. apply read_string_f_noeof. Qed.
+
+Lemma classify_noeof a b t : classify_number a b t <> PEof.
+Proof.
+  unfold classify_number, parse_to_double.
+  repeat match goal with |- context [match ?x with _ => _ end] => destruct x end; discriminate.
+Qed.
+
+Lemma read_number_noeof r : fst (read_number r) <> PEof.
+Proof.
+  unfold read_number.
+  repeat lazymatch goal with |- ?t <> PEof => let x := hs t in destruct x; fr_norm end;
+    first [discriminate | apply classify_noeof].
+Qed.
+
+Ltac io_case :=
+  lazymatch goal with
+  | |- eofok (?a, ?b) => let x := hs a in destruct x; fr_norm
+  | |- eofok ?t => let x := hs t in destruct x; fr_norm
+  | |- ?t <> PEof => let x := hs t in destruct x; fr_norm
+  end.
+
+Ltac io_fact :=
+  match goal with
+  | |- context [peek ?r] => fr_pair (peek r) (peek_none_eof r)
+  | |- context [read_string ?r] => fr_pair (read_string r) (read_string_noeof r)
+  | |- context [read_number ?r] => fr_pair (read_number r) (read_number_noeof r)
+  | IH : forall acc (r : reader), fst (parse_items ?f acc r) <> PEof |- context [parse_items ?f ?a ?r] =>
+      fr_pair (parse_items f a r) (IH a r)
+  | IH : forall acc (r : reader), fst (parse_members ?f acc r) <> PEof |- context [parse_members ?f ?a ?r] =>
+      fr_pair (parse_members f a r) (IH a r)
+  end.
+
+Ltac io_done :=
+  first [ discriminate
+        | assumption
+        | let HE := fresh in intro HE; cbn [fst snd] in *;
+          first [discriminate HE | assumption | contradiction] ].
+
+Lemma parse_eof : forall fuel,
+  (forall r, eofok (parse_value fuel r)) /\
+  (forall acc r, fst (parse_items fuel acc r) <> PEof) /\
+  (forall acc r, fst (parse_members fuel acc r) <> PEof).
+Proof.
+  induction fuel as [|f (IHv & IHi & IHm)].
+  - split; [|split]; intros; [intro H|..]; discriminate.
+  - split; [|split].
+    + intros r. rewrite parse_value_S. fr_norm. repeat first [io_fact | io_case]; io_done.
+    + intros acc r. rewrite parse_items_S. fr_norm. repeat first [io_fact | io_case]; io_done.
+    + intros acc r. rewrite parse_members_S. fr_norm. repeat first [io_fact | io_case]; io_done.
+Qed.
+
+Lemma next_json_value_eof r : fst (next_json_value r) = PEof -> eof (snd (next_json_value r)) = true.
+Proof. apply (proj1 (parse_eof (parse_fuel r))). Qed.
+
+Section ReadError.
+Variables (cf : cfg) (p : printer) (sts : list stage) (nt : nat).
+Hypothesis never_break : forall ss c, snd (Chain.process expr get sts ss c) = Continue.
+
+Lemma read_input_err : forall fuel r fname ss idx infile, err_ahead r ->
+  let e := snd (fst (read_input cf p sts nt fuel r fname ss idx infile)) in
+  (e = Some GErrIo \/ e = Some GErrJson) /\ (c_on_error cf <> OnPanic -> e = Some GErrIo).
+Proof.
+  induction fuel as [|f IH]; intros r fname ss idx infile Hr; cbv zeta.
+  - cbn. auto.
+  - cbn [read_input]. cbv zeta.
+    pose proof (next_json_value_advances r) as Ha.
+    pose proof (next_json_value_eof r) as Heof.
+    destruct (next_json_value r) as [res r1]. cbn [fst snd] in Ha, Heof.
+    pose proof (err_ahead_advances r r1 Ha Hr) as Hr1.
+    destruct (io r1) eqn:Hio; [cbn; auto|].
+    destruct res as [v| | |].
+    + destruct (c_only_objs cf && negb (is_container v)); [apply IH; assumption|].
+      match goal with |- context [process expr get sts ss ?c] =>
+        pose proof (never_break ss c) as Hd; destruct (process expr get sts ss c) as [[ss1 o] d] end.
+      cbn [snd] in Hd. subst d.
+      specialize (IH r1 fname ss1 (idx + 1) (infile + 1) Hr1). cbv zeta in IH.
+      destruct (read_input cf p sts nt f r1 fname ss1 (idx + 1) (infile + 1)) as [[[[ss2 o2] idx2] e2] r2].
+      cbn [fst snd] in *. exact IH.
+    + exfalso. specialize (Heof eq_refl). destruct Hr1 as (He & Hi). rewrite (He Heof) in Hi.
+      destruct Hi as [[]|Hi]. congruence.
+    + destruct (c_on_error cf) eqn:Epol;
+        try (specialize (IH r1 fname ss idx infile Hr1); cbv zeta in IH;
+             destruct (read_input cf p sts nt f r1 fname ss idx infile) as [[[[ss2 o2] idx2] e2] r2];
+             cbn [fst snd] in *; exact IH).
+      cbn [fst snd]. split; [auto|]. intros C. congruence.
+    + cbn. auto.
+Qed.
+End ReadError.
+
+Theorem read_error_not_eof : forall cf p sts nt fname pre rst ss idx infile,
+  (forall ss c, snd (Chain.process expr get sts ss c) = Continue) ->
+  let evs := map EB pre ++ EErr :: rst in
+  let '(_, _, _, e, _) := read_input cf p sts nt (input_fuel evs) (mk_reader evs) fname ss idx infile in
+  e <> None /\ (c_on_error cf <> OnPanic -> e = Some GErrIo).
+Proof.
+  intros cf p sts nt fname pre rst ss idx infile Hnb evs.
+  pose proof (read_input_err cf p sts nt Hnb (input_fuel evs) (mk_reader evs) fname ss idx infile
+                (err_ahead_init pre rst)) as H. cbv zeta in H.
+  destruct (read_input cf p sts nt (input_fuel evs) (mk_reader evs) fname ss idx infile)
+    as [[[[ss2 o2] idx2] e2] r2]. cbn [fst snd] in H. destruct H as [[H|H] H2]; split; auto; congruence.
+Qed.
+
+Theorem go_read_error : forall cf fname pre rst b p sts hdr,
+  build_pipeline cf = Some (p, sts) ->
+  start_output p (titles expr sts []) (c_rowsep cf) = Some hdr ->
+  (forall ss c, snd (Chain.process expr get sts ss c) = Continue) ->
+  let evs := map EB pre ++ EErr :: rst in
+  g_result (go cf [(fname, evs)] b) <> GOk /\
+  (c_on_error cf <> OnPanic -> g_result (go cf [(fname, evs)] b) = GErrIo).
+Proof.
+  intros cf fname pre rst b p sts hdr Hbp Hst Hnb evs.
+  unfold go. rewrite Hbp. cbv zeta. rewrite Hst. cbn [read_files].
+  pose proof (read_input_err cf p sts (length (titles expr sts [])) Hnb (input_fuel evs) (mk_reader evs)
+                fname (map (init_state expr) sts) 0 0 (err_ahead_init pre rst)) as H. cbv zeta in H.
+  destruct (read_input cf p sts (length (titles expr sts [])) (input_fuel evs) (mk_reader evs) fname
+              (map (init_state expr) sts) 0 0) as [[[[ss2 o2] idx2] e2] r2].
+  cbn [fst snd] in H. destruct H as [[H|H] H2].
+  - subst e2. cbn [g_result]. split; [discriminate|reflexivity].
+  - subst e2. cbn [g_result]. split; [discriminate|]. intros C. specialize (H2 C). discriminate.
+Qed.
+
+Print Assumptions read_error_not_eof.
+Print Assumptions go_read_error.
+Print Assumptions apply_rooms_failed_iff.
+Print Assumptions run_with_rooms_result.
+Print Assumptions ctx_indices.
+Print Assumptions ctx_contiguous.
+Print Assumptions ctx_locations.
